@@ -333,6 +333,131 @@ def run_tlc(window, ctx):
                 "first": states[0], "last": states[-1]})
 
 
+# -- histories over the static helpers and the constructor: each sequence in a freshly forked process --------------
+
+SH_YEARS = [1500, 1582, 1600, 1900, 2000, -4, 0, 100, 4, 1501]
+
+
+def static_ops():
+    """Operation alphabet: (group, name, args).  Groups: ('m', month) and ('y', year)."""
+    ops = []
+    for m in range(1, 13):
+        s, l = cal.SHORT[m - 1], cal.LONG[m - 1]
+        for tag, x in (("int", m), ("short", s), ("long", l), ("short_lower", s.lower())):
+            ops.append((("m", m), "get_month", [tag, x, False]))
+            ops.append((("m", m), "get_month", [tag, x, True]))
+            ops.append((("m", m), "ctor_month", [tag, x]))
+    for y in SH_YEARS:
+        g = ("y", y)
+        ops += [(g, "is_leap", [y]), (g, "is_leap", [float(y)]), (g, "is_leap_frac", [y + 0.5]),
+                (g, "is_leap_frac", [y + 0.25]), (g, "ctor_feb", [y, 29]), (g, "ctor_feb", [y, 28]),
+                (g, "leap_method", [y]), (g, "is_julian", [y, 10, 4]), (g, "is_julian", [y, 10, 15])]
+    return ops
+
+
+def do_static(name, args):
+    """Runs one operation; returns None or a message (absolute oracle from the reference calendar)."""
+    if name == "get_month":
+        tag, x, as_string = args
+        m = [i for i in range(1, 13) if x in (i, cal.SHORT[i - 1], cal.LONG[i - 1], cal.SHORT[i - 1].lower())][0]
+        r = Epoch.get_month(x, as_string=as_string)
+        exp = cal.LONG[m - 1] if as_string else m
+        if r != exp or type(r) is not type(exp):
+            return "Epoch.get_month(%r, as_string=%r) = %r, expected %r" % (x, as_string, r, exp)
+    elif name == "ctor_month":
+        tag, x = args
+        m = [i for i in range(1, 13) if x in (i, cal.SHORT[i - 1], cal.LONG[i - 1], cal.SHORT[i - 1].lower())][0]
+        j = Epoch(2001, x, 15).jde()
+        exp = cal.day_number(2001, m, 15) - 0.5
+        if j != exp:
+            return "Epoch(2001, %r, 15).jde() = %r, expected %r" % (x, j, exp)
+    elif name == "is_leap":
+        r = Epoch.is_leap(args[0])
+        if r is not cal.leap(int(args[0])) and r != cal.leap(int(args[0])):
+            return "Epoch.is_leap(%r) = %r" % (args[0], r)
+    elif name == "is_leap_frac":
+        Epoch.is_leap(args[0])          # the answer for a non-integer year is not specified; only its after-effects
+    elif name == "ctor_feb":
+        y, d = args
+        ok = d <= cal.mlen(y, 2)
+        try:
+            j = Epoch(y, 2, d).jde()
+        except ValueError:
+            return None if not ok else "Epoch(%d, 2, %d) refused, February %d has %d days" % (y, d, y, cal.mlen(y, 2))
+        if not ok:
+            return "Epoch(%d, 2, %d) accepted, February %d has %d days" % (y, d, y, cal.mlen(y, 2))
+        if j != cal.day_number(y, 2, d) - 0.5:
+            return "Epoch(%d, 2, %d).jde() = %r" % (y, d, j)
+    elif name == "leap_method":
+        r = Epoch(args[0], 6, 1).leap()
+        if r != cal.leap(args[0]):
+            return "Epoch(%d, 6, 1).leap() = %r" % (args[0], r)
+    elif name == "is_julian":
+        y, m, d = args
+        r = Epoch.is_julian(y, m, d)
+        if r != ((y, m, d) < (1582, 10, 15)):
+            return "Epoch.is_julian(%d, %d, %d) = %r" % (y, m, d, r)
+    return None
+
+
+def check_static_history(case):
+    """The sequence runs in a freshly forked process (class-level state of the library starts as imported);
+    the LAST operation is judged (the earlier ones have been judged as the last of their own prefix)."""
+    from .c20 import run_in_fork
+    seq = case["ops"]
+
+    def body():
+        for name, args in seq[:-1]:
+            try:
+                do_static(name, args)
+            except Exception:
+                pass
+        try:
+            return do_static(*seq[-1])
+        except Exception as ex:
+            return "raised %r" % (ex,)
+    kind, res = run_in_fork(body)
+    if kind != "ok":
+        return ["child failed: %s" % (res,)]
+    if res:
+        return ["after %s: %s" % (", ".join("%s%r" % (n, tuple(a)) for n, a in seq[:-1]) or "nothing", res)]
+    return []
+
+
+def static_sequences(tier):
+    ops = static_ops()
+    seqs = [[(n, a)] for _, n, a in ops]
+    for ga, na, aa in ops:
+        for gb, nb, ab in ops:
+            if ga == gb or tier == "thorough" or (ga[0] == gb[0] == "y"):
+                seqs.append([(na, aa), (nb, ab)])
+    groups = {}
+    for g, n, a in ops:
+        groups.setdefault(g, []).append((n, a))
+    for g, lst in sorted(groups.items()):
+        if g[0] == "m" and tier != "thorough" and g[1] not in (2, 10):
+            continue
+        for a in lst:
+            for b in lst:
+                for c in lst:
+                    if a != b and b != c:
+                        seqs.append([a, b, c])
+    return [{"ops": [[n, a] for n, a in q]} for q in seqs]
+
+
+def run_static_history(block, ctx):
+    for case in block:
+        ctx.evals += len(case["ops"])
+        ctx.traces += 1
+        ctx.nt_count += 1
+        res = check_static_history(case)
+        for msg in res:
+            ctx.viol(case, msg, site="static_history")
+        ctx.outcome((case["ops"][-1][0], len(case["ops"]), len(res)))
+    ctx.obs(block[0]["ops"][0][0], len(block))
+    ctx.sample(block[0])
+
+
 _FAST = None
 
 
@@ -351,6 +476,8 @@ def clauses(tier):
         Clause("months", chunks(ys, 48), run_months, replay_months,
                floor=100000, shape="S"),
         Clause("anchors", [0], run_anchors, replay_anchor, floor=3, shape="S"),
+        Clause("static_history", chunks(static_sequences(tier), 64), run_static_history, check_static_history,
+               floor=5000, shape="H"),
     ]
     if tier == "thorough" and tlc_available():
         out.append(Clause("tlc_cross_model", TLC_WINDOWS, run_tlc, replay_walk,
